@@ -5,7 +5,7 @@ PLAN = dict(
          "revocation list; kinds and signer key types SM2/P-256/P-384/Ed25519/RSA cycle with the case number, template, subject key "
          "and signature algorithm come from the case PRNG) with the field-equality and signature laws, an independent SM2-SM3 "
          "verification, issuer-key substitution, issuer gating and the complete sweep: 4 substitutions (^0x01, ^0x80, 0x00, 0xFF; "
-         "identity mutants excluded) at every DER offset, every truncation and 2 trailing-data extensions. c15.chains: one case = one "
+         "identity mutants excluded) at every DER offset (every 4th offset, phase = object number mod 4, when the issuer key is P-384), every truncation and 2 trailing-data extensions. c15.chains: one case = one "
          "generated PKI (a base chain of depth 0..3 changed by one of 20 recipes or a mix of 2-3, plus noise) built three times (SM2 keys, "
          "mixed key types, ECDSA twin through crypto/x509) and queried at 4+ explicit verification times x key-usage sets per target. "
          "c15.sha1: the object workload restricted to SHA-1 signature algorithms, run with GODEBUG=x509sha1=1 only. "
@@ -31,7 +31,7 @@ CLAIM = dict(
          "returned by Verify on generated PKIs is checked link by link against the generator's ground truth (signing edges, windows, CA/key "
          "usage, path length, name constraints, EKU nesting, unknown critical extensions), Verify must succeed whenever the ground truth has "
          "a valid chain, verdict and chain set must be independent of the key types and equal to crypto/x509's on an ECDSA twin. "
-         "Exploration: sampled templates and topologies, exhaustive only over the single-byte substitutions of each sampled object.",
+         "Exploration: sampled templates and topologies, exhaustive only over the single-byte substitutions of each sampled object (a quarter of the offsets for P-384 issuers).",
     design_ref="DESIGN.md 6 (C15)",
     note="trusted: crypto/x509 + encoding/asn1 of the toolchain, harness/ref/ec, harness/ref/sm3, the PKI model in harness/wl/c15/chains.go; "
          "SHA-1 algorithms only in workload c15.sha1 (configuration sha1ok)",
